@@ -366,6 +366,18 @@ def run_shard(item):
                               {'id': item[1]})
             res.nontriv(('ids', item[1]))
     elif kind == 'alloc':
+        # every keyword and every documented API / callback name is a fixed point (default and keep-file configs)
+        for keep in ([], [b'zz']):
+            f = new_factory(keep, False)
+            f.get_short_name(b'warmup')
+            for name in KEYWORDS + BUILTINS_SNAPSHOT:
+                res.evaluations += 1
+                got = f.get_short_name(name)
+                if got != name:
+                    res.violation('C02|factory|not-kept|%s' % ('keyword' if name in KEYWORDS else 'builtin'),
+                                  'get_short_name(%r) = %r: keywords and PICO-8 API names must be left as written' % (name, got),
+                                  {'keep': keep, 'keep_all': False, 'hist': [b'warmup', name]})
+                    break
         check_alloc(item[1], res)
         check_alloc(item[1], res, keep=successors_of_reserved(26 ** 3))
     elif kind == 'cli':
